@@ -1,9 +1,12 @@
 import Req.Driver.Proto
 import Req.H1.Response
+import Req.H1.Conn
 import Req.C03.H2Cut
 import Req.C03.H2Pool
 import Req.C03.H3Cut
 import Req.C03.GzipCut
+import Req.C03.EncCut
+import Req.C03.H2Multi
 /-! Driver lanes of C03.
 
 `c03cut <G|H> <eof|hold> <hex stream> <k>`: the peer sends the first `k` bytes of the stream in
@@ -51,6 +54,32 @@ def laneCut : List String → String
           if mode == "early" then "ok-early code=" ++ toString m.sl.code ++ " dials=" ++ dials
           else if b.ok then "ok code=" ++ toString m.sl.code ++ " body=" ++ encodeHex b.data ++ " dials=" ++ dials
           else "fail dials=" ++ dials
+    | _, _ => "bad-op"
+  | _ => "bad-op"
+
+/-- `c03over <G|H> <hex segment> <hold|eof> <hex second>`: the peer answers the first request of a
+fresh client with `segment` (a complete response, possibly with unsolicited bytes behind it) and
+keeps the connection open (`hold`: it would answer further requests on it with `second`) or closes
+it (`eof`); every other connection answers with `second`.  Two requests through the Transport
+model of C04 (`Req.H1.transportRun`): both outcomes (status + body) and the number of dials. -/
+def renderOver : Delivery → String
+  | .fail => "fail"
+  | .resp m seen .eof _ => "ok code=" ++ toString m.sl.code ++ " body=" ++ encodeHex seen
+  | .resp _ _ .err _ => "fail"
+  | .resp _ _ .closed _ => "closed"
+  | .resp _ _ .raw _ => "raw"
+
+def laneOver : List String → String
+  | [meth, hex, mode, hex2] =>
+    match decodeHex hex, decodeHex hex2 with
+    | some seg, some second =>
+      if (meth != "G" && meth != "H") || (mode != "eof" && mode != "hold") then "bad-op" else
+      let q1 : ConnReq := ⟨meth == "H", false, false, .full⟩
+      let q : ConnReq := ⟨false, false, false, .full⟩
+      let sc1 : ConnScript := if mode == "eof" then ⟨[seg], true⟩ else ⟨[seg, second, second], false⟩
+      let sc2 : ConnScript := ⟨[second, second, second], false⟩
+      let (ds, n) := transportRun 4096 [q1, q] ⟨none, [sc1, sc2], 0⟩
+      " | ".intercalate (ds.map renderOver) ++ " dials=" ++ toString n
     | _, _ => "bad-op"
   | _ => "bad-op"
 
@@ -165,9 +194,95 @@ def laneGz : List String → String
     | _, _, _, _ => "bad-op"
   | _ => "bad-op"
 
+/-! ### encoded bodies (gzip / deflate: the container model of C14 behind the framing model) -/
+
+def parseEnc : String → Option Enc
+  | "gzip" => some .gzip
+  | "deflate" => some .deflate
+  | _ => none
+
+def renderEnc (mode : String) : EncOutcome → String
+  | .pending => "pending"
+  | .callFailed true => "retry"
+  | .callFailed false => if mode == "s" then "fail-call" else "fail"
+  | .ok st body => "ok status=" ++ toString st ++ " body=" ++ encodeHex body
+  | .bodyFailed _ _ => if mode == "s" then "fail-body" else "fail"
+
+/-- `c03h2z <gzip|deflate> <head> <stream id> <events> <mode s|a>`: `c03h2` with the body decoded. -/
+def laneH2z : List String → String
+  | [enc, hd, sid, evs, mode] =>
+    match parseEnc enc, parseBool01 hd, sid.toNat?, decodeH2XEvs evs with
+    | some enc, some isHead, some sid, some evs =>
+      if mode != "s" && mode != "a" then "bad-op" else
+      let x := ((H2X.init sid isHead).run (evs.map .ev)).2
+      renderEnc mode (h2Enc enc x 512) ++ " dials=" ++ toString (h2DialsAfterNext x)
+    | _, _, _, _ => "bad-op"
+  | _ => "bad-op"
+
+/-- `c03h3z <gzip|deflate> <head> <segs> <fin|reset|close> <fieldlists> <mode s|a>`: `c03h3` decoded. -/
+def laneH3z : List String → String
+  | [enc, hd, segs, fin, fls, mode] =>
+    match parseEnc enc, parseBool01 hd, decodeList segs, parseH3End fin, decodeFieldLists fls with
+    | some enc, some isHead, some segs, some e, some fls =>
+      if mode != "s" && mode != "a" then "bad-op" else
+      let (zo, o) := h3Enc enc isHead segs e.net fls 10485760 512
+      renderEnc mode zo ++ " dials=" ++ toString (h3DialsAfterSecond e o)
+    | _, _, _, _, _ => "bad-op"
+  | _ => "bad-op"
+
+/-- `c03h1z <gzip|deflate> <hex stream> <k>`: an HTTP/1.1 response with an encoded body under
+`EnableAutoDecompress`, cut at `k`, then EOF. -/
+def laneH1z : List String → String
+  | [enc, hex, ks] =>
+    match parseEnc enc, decodeHex hex, ks.toNat? with
+    | some enc, some s, some k =>
+      match h1Enc enc 4096 (s.take k) with
+      | none => "fail"
+      | some (.ok _ body) => "ok body=" ++ encodeHex body
+      | some _ => "fail"
+    | _, _, _ => "bad-op"
+  | _ => "bad-op"
+
+/-! ### HTTP/2, concurrent streams -/
+
+def decodeH2MEv (s : String) : Option H2MEv :=
+  match s.splitOn "@" with
+  | ["C", e] => (decodeH2XEv e).map .conn
+  | [id, e] => do
+    let id ← id.toNat?
+    let e ← decodeH2XEv e
+    pure (.frame id e)
+  | _ => none
+
+def renderH2Plain : H2Outcome → String
+  | .pending => "pending"
+  | .callFailed true => "retry"
+  | .callFailed false => "fail"
+  | .ok st body => "ok status=" ++ toString st ++ " body=" ++ encodeHex body
+  | .bodyFailed _ _ _ => "fail"
+  | .bodyBlocked _ _ => "blocked"
+
+/-- `c03h2m <id a> <id b> <events>`: two concurrent streams on one connection; `events` =
+`<id>@<event>` (a frame of that stream) / `C@<event>` (GOAWAY, connection lost) joined by `|`.
+Answer: what the two callers observe and the dials after a follow-up request. -/
+def laneH2m : List String → String
+  | [a, b, evs] =>
+    match a.toNat?, b.toNat?, (if evs == "none" then some [] else (evs.splitOn "|").mapM decodeH2MEv) with
+    | some a, some b, some evs =>
+      let m := H2M.init.run evs
+      "a=" ++ renderH2Plain ((m a).outcome 512) ++ " b=" ++ renderH2Plain ((m b).outcome 512) ++
+        " dials=" ++ toString (h2mDialsAfterNext m [a, b])
+    | _, _, _ => "bad-op"
+  | _ => "bad-op"
+
 def lanes : List (String × (List String → String)) := [
+  ("c03h2m", laneH2m),
+  ("c03h2z", laneH2z),
+  ("c03h3z", laneH3z),
+  ("c03h1z", laneH1z),
   ("c03cut", laneCut),
   ("c03gz", laneGz),
+  ("c03over", laneOver),
   ("c03h2", laneH2),
   ("c03h3", laneH3)
 ]
